@@ -25,7 +25,101 @@ fn elim_order(cnf: &Cnf, kind: u64) -> VarOrder {
     match kind { 0 => cnf.linear_order(), 1 => cnf.min_fill_order(), _ => cnf.force_order() }
 }
 
+/// sparse family: few variables with large labels around the word-size boundaries (31/32, 63/64,
+/// 127/128), several of them congruent modulo 32 / 64, in a builder over max label + 1 variables
+fn gen_sparse(rng: &mut Rng, thorough: bool) -> String {
+    const SPECIAL: [u64; 16] = [0, 1, 2, 3, 30, 31, 32, 33, 62, 63, 64, 65, 66, 67, 128, 129];
+    let k = rng.range(2, if thorough { 6 } else { 5 });
+    let mut labels: Vec<u64> = vec![];
+    while labels.len() < k {
+        let l = if !labels.is_empty() && rng.chance(1, 2) {
+            // a label congruent to an earlier one modulo 64 (or 32)
+            let base = *rng.pick(&labels);
+            let m = if rng.chance(3, 4) { 64 } else { 32 };
+            if base >= m && rng.coin() { base - m } else { base + m }
+        } else {
+            *rng.pick(&SPECIAL)
+        };
+        if l <= 131 && !labels.contains(&l) {
+            labels.push(l);
+        }
+    }
+    let nvars = (*labels.iter().max().unwrap() + 1 + rng.range(0, 2) as u64) as usize;
+    let perm = if rng.chance(1, 2) { (0..nvars).collect::<Vec<_>>() } else { rng.perm(nvars) };
+    let cache = if rng.coin() { "a".to_string() } else { format!("l{}", rng.range(0, 4)) };
+    let mut s = format!("{nvars}");
+    for p in &perm { s.push_str(&format!(" {p}")); }
+    s.push_str(&format!(" {cache} 0"));
+    let pickl = |rng: &mut Rng| *rng.pick(&labels);
+    if rng.chance(2, 3) {
+        let ncl = rng.range(1, 5);
+        let c: RawCnf = (0..ncl).map(|_| (0..rng.range(1, 3)).map(|_| (pickl(rng), rng.coin())).collect()).collect();
+        s.push_str(" C");
+        cnf_str(&c, &mut s);
+        let kk = rng.range(0, 2.min(labels.len()));
+        s.push_str(&format!(" A {kk}"));
+        let mut ls = labels.clone();
+        rng.shuffle(&mut ls);
+        for v in ls.iter().take(kk) { s.push_str(&format!(" {v} {}", rng.coin() as u8)); }
+    } else {
+        fn relabel(e: &Ex, labels: &[u64]) -> Ex {
+            let b = |x: &Ex| Box::new(relabel(x, labels));
+            match e {
+                Ex::L(v, p) => Ex::L(labels[*v as usize % labels.len()], *p),
+                Ex::T => Ex::T,
+                Ex::F => Ex::F,
+                Ex::N(a) => Ex::N(b(a)),
+                Ex::A(a, c) => Ex::A(b(a), b(c)),
+                Ex::O(a, c) => Ex::O(b(a), b(c)),
+                Ex::I(a, c) => Ex::I(b(a), b(c)),
+                Ex::X(a, c) => Ex::X(b(a), b(c)),
+                Ex::K(a, c, d) => Ex::K(b(a), b(c), b(d)),
+            }
+        }
+        let e = relabel(&gen_ex(rng, labels.len(), 3, false, true), &labels);
+        s.push_str(" E");
+        ex_str(&e, &mut s);
+    }
+    s
+}
+
+/// sparse cases: truth table over the used variables only (all others false), plus "no node
+/// tests an unused variable"
+fn check_sparse(name: &str, p: BddPtr, used: &[u64], f: &dyn Fn(&dyn Fn(u64) -> bool) -> bool, fails: &mut Vec<String>) {
+    fn eval(p: BddPtr, val: &dyn Fn(u64) -> bool) -> bool {
+        match p {
+            BddPtr::PtrTrue => true,
+            BddPtr::PtrFalse => false,
+            BddPtr::Reg(n) => if val(n.var.value()) { eval(n.high, val) } else { eval(n.low, val) },
+            BddPtr::Compl(n) => !(if val(n.var.value()) { eval(n.high, val) } else { eval(n.low, val) }),
+        }
+    }
+    fn tested(p: BddPtr, out: &mut Vec<u64>) {
+        if let BddPtr::Reg(n) | BddPtr::Compl(n) = p {
+            out.push(n.var.value());
+            tested(n.low, out);
+            tested(n.high, out);
+        }
+    }
+    let mut t = vec![];
+    tested(p, &mut t);
+    if let Some(v) = t.iter().find(|v| !used.contains(v)) {
+        fails.push(format!("{name}: the diagram tests variable {v}, which the formula does not mention"));
+    }
+    for a in 0..(1usize << used.len()) {
+        let val = |v: u64| used.iter().position(|u| *u == v).map_or(false, |i| (a >> i) & 1 == 1);
+        let (d, e) = (eval(p, &val), f(&val));
+        if d != e {
+            fails.push(format!("{name}: the diagram evaluates to {d} where the variables {used:?} have the values {a:#b} (others false), the input formula to {e}"));
+            break;
+        }
+    }
+}
+
 pub fn gen(rng: &mut Rng, idx: usize, n: usize, thorough: bool) -> String {
+    if idx % 12 == 11 {
+        return gen_sparse(rng, thorough);
+    }
     let frac = (idx * 100) / n.max(1);
     let maxv = if thorough { 8 } else { 6 };
     let nvars = (1 + (frac * (maxv - 1)) / 100 + rng.range(0, 1)).min(maxv);
@@ -76,6 +170,47 @@ pub fn run(case: &str, st: &mut Stats) -> Outcome {
     i += 1;
     let mut fails = vec![];
     let mut line = String::new();
+    if nvars > 16 {
+        // sparse family
+        st.bump("kind_sparse_large_labels");
+        match kind {
+            "C" => {
+                let raw = cnf_parse(&t, &mut i);
+                assert!(t[i] == "A");
+                let k: usize = t[i + 1].parse().unwrap();
+                let lits: Vec<(u64, bool)> = (0..k).map(|j| (t[i + 2 + 2 * j].parse().unwrap(), t[i + 3 + 2 * j] != "0")).collect();
+                let mut used: Vec<u64> = raw.iter().flatten().map(|l| l.0).collect();
+                used.sort();
+                used.dedup();
+                let cnf = to_cnf(&raw);
+                let r = b.compile_cnf(&cnf);
+                check_sparse("compile_cnf", r, &used, &|val| cnf_eval_f(&raw, val), &mut fails);
+                let lv: Vec<Literal> = lits.iter().map(|(v, p)| Literal::new(VarLabel::new(*v), *p)).collect();
+                let m = PartialModel::from_litvec(&lv, nvars);
+                let ra = b.compile_cnf_with_assignments(&cnf, &m);
+                check_sparse("compile_cnf_with_assignments", ra, &used, &|val| cnf_eval_f(&raw, &|v| lits.iter().find(|(u, _)| *u == v).map_or(val(v), |(_, p)| *p)), &mut fails);
+                let rc = b.condition_model(r, &m);
+                if !b.eq(ra, rc) {
+                    fails.push("compile_cnf_with_assignments differs from compile_cnf followed by condition_model".to_string());
+                }
+                unfold(r, &mut line);
+                line.push_str(" | ");
+                unfold(ra, &mut line);
+                return Outcome { result: line, fails, nontrivial: used.len() >= 2 };
+            }
+            _ => {
+                let e = ex_parse(&t, &mut i);
+                let mut used = vec![];
+                ex_vars(&e, &mut used);
+                used.sort();
+                used.dedup();
+                let r = b.compile_logical_expr(&to_logical(&e));
+                check_sparse("compile_logical_expr", r, &used, &|val| ex_eval_f(&e, val), &mut fails);
+                unfold(r, &mut line);
+                return Outcome { result: line, fails, nontrivial: used.len() >= 2 };
+            }
+        }
+    }
     let sz = 1usize << nvars;
     let mut check = |name: &str, p: BddPtr, f: &dyn Fn(usize) -> bool, fails: &mut Vec<String>| {
         let tb = table_of(p, nvars);
